@@ -82,13 +82,34 @@ impl Serialize for Symbol {
 
 impl Serialize for Number {
     fn serialize<S: Serializer>(&self, serializer: S) -> Result<S::Ok, S::Error> {
-        if let Some(unit) = self.unit {
-            let mut map = serializer.serialize_map(Some(3))?;
+        // JSON has no literal for the non-finite numbers, Hayson spells them as strings
+        let special = if self.value.is_nan() {
+            Some("NaN")
+        } else if self.value == f64::INFINITY {
+            Some("INF")
+        } else if self.value == f64::NEG_INFINITY {
+            Some("-INF")
+        } else {
+            None
+        };
+
+        if self.unit.is_some() || special.is_some() {
+            let len = if self.unit.is_some() { 3 } else { 2 };
+            let mut map = serializer.serialize_map(Some(len))?;
             map.serialize_entry("_kind", "number")?;
-            map.serialize_entry("val", &self.value)?;
-            map.serialize_entry("unit", unit.symbol())?;
+            match special {
+                Some(special) => map.serialize_entry("val", special)?,
+                None => map.serialize_entry("val", &self.value)?,
+            }
+            if let Some(unit) = self.unit {
+                map.serialize_entry("unit", unit.symbol())?;
+            }
             map.end()
-        } else if self.value.fract() == 0.0 {
+        } else if self.value.fract() == 0.0
+            && self.value >= -9223372036854775808.0
+            && self.value < 9223372036854775808.0
+        {
+            // Integral and in the range of an i64
             serializer.serialize_i64(self.value as i64)
         } else {
             serializer.serialize_f64(self.value)
